@@ -6,8 +6,10 @@ No hook in /repo is needed: write recording and forced yields are monkey-patches
 applied to the instances created here."""
 import os
 import shutil
+import signal
 import sys
 import tempfile
+import threading
 import warnings
 
 REPO = os.environ.get("VERIF_REPO", "/repo")
@@ -15,6 +17,14 @@ if REPO not in sys.path:
     sys.path.insert(0, REPO)
 
 warnings.simplefilter("ignore")
+
+
+class _Timeout(BaseException):
+    pass
+
+
+def _on_alarm(signum, frame):
+    raise _Timeout()
 
 
 class _Sentinel(object):
@@ -129,12 +139,23 @@ class Impl(object):
 
     def call(self, f):
         TE = self.traph_mod.TraphException
+        # a request that does not return is a failure of the request, not of the harness
+        use_alarm = hasattr(signal, "SIGALRM") and threading.current_thread() is threading.main_thread()
+        if use_alarm:
+            old = signal.signal(signal.SIGALRM, _on_alarm)
+            signal.alarm(int(os.environ.get("VERIF_CMD_TIMEOUT", "4")))
         try:
             return f()
         except TE:
             return REFUSED
+        except _Timeout:
+            return Crash("Timeout: the request did not return within the time limit")
         except Exception as e:  # any other exception is a crash of the request
             return Crash("%s: %s" % (type(e).__name__, e))
+        finally:
+            if use_alarm:
+                signal.alarm(0)
+                signal.signal(signal.SIGALRM, old)
 
     # ---- dispatcher -------------------------------------------------------------
     def exec(self, op, a):
